@@ -107,21 +107,21 @@ def inE (g : G) (b a : Nat) : Option Nat := (AL.find b g.nodes).bind (fun r => A
 
 /-! ### private primitives -/
 
-/-- `linkInNodeStructure_` (GlobalGraph.cpp:246): absent nodes are silently skipped,
+/-- `linkInNodeStructure_` (GlobalGraph.cpp:250): absent nodes are silently skipped,
 `insert` does not overwrite -/
 def linkInNode (a b e : Nat) (g : G) : G :=
   let n1 := AL.modify a (fun r => { r with out := AL.insertNew b e r.out }) g.nodes
   let n2 := AL.modify b (fun r => { r with inn := AL.insertNew a e r.inn }) n1
   { g with nodes := n2 }
 
-/-- `linkInEdgeStructure_` (GlobalGraph.cpp:213): `edgeStructure_[edge] = (a,b)` overwrites -/
+/-- `linkInEdgeStructure_` (GlobalGraph.cpp:217): `edgeStructure_[edge] = (a,b)` overwrites -/
 def linkInEdge (a b e : Nat) (g : G) : G := { g with edges := AL.set e (a, b) g.edges }
 
-/-- `unlinkInEdgeStructure_` (GlobalGraph.cpp:203) -/
+/-- `unlinkInEdgeStructure_` (GlobalGraph.cpp:207) -/
 def unlinkInEdge (e : Nat) (g : G) : GOut Unit :=
   if g.hasEdge e then .ok () { g with edges := AL.erase e g.edges } else .exc g
 
-/-- `unlinkInNodeStructure_` (GlobalGraph.cpp:220): the four look-ups are checked
+/-- `unlinkInNodeStructure_` (GlobalGraph.cpp:224): the four look-ups are checked
 before anything is erased -/
 def unlinkInNode (a b : Nat) (g : G) : GOut Nat :=
   match AL.find a g.nodes with
@@ -142,29 +142,29 @@ def unlinkInNode (a b : Nat) (g : G) : GOut Nat :=
 
 /-! ### mutators -/
 
-/-- `createNode` (GlobalGraph.cpp:259) -/
+/-- `createNode` (GlobalGraph.cpp:263) -/
 def createNode (g : G) : GOut Nat :=
   let n := g.nextNode
   .ok n { g with nextNode := n + 1, nodes := AL.set n {} g.nodes }
 
-/-- the validation shared by both `link` overloads (GlobalGraph.cpp:81-84, 103-106) -/
+/-- the validation shared by both `link` overloads (GlobalGraph.cpp:85-88, 107-110) -/
 def linkRefused (g : G) (a b : Nat) : Bool :=
   !g.hasNode a || !g.hasNode b || (g.outE a b).isSome
 
-/-- the three writes shared by both overloads (GlobalGraph.cpp:90-95, 111-116) -/
+/-- the three writes shared by both overloads (GlobalGraph.cpp:94-99, 115-120) -/
 def linkWrite (a b e : Nat) (g : G) : G :=
   let g1 := linkInNode a b e g
   let g2 := if g.directed then g1 else linkInNode b a e g1
   linkInEdge a b e g2
 
-/-- `link(nodeA, nodeB)` (GlobalGraph.cpp:78) -/
+/-- `link(nodeA, nodeB)` (GlobalGraph.cpp:82) -/
 def link (a b : Nat) (g : G) : GOut Nat :=
   if linkRefused g a b then .exc g
   else
     let e := g.nextEdge
     .ok e (linkWrite a b e { g with nextEdge := e + 1 })
 
-/-- `link(nodeA, nodeB, edgeID)` (GlobalGraph.cpp:99) -/
+/-- `link(nodeA, nodeB, edgeID)` (GlobalGraph.cpp:103) -/
 def linkE (a b e : Nat) (g : G) : GOut Unit :=
   if g.hasEdge e then .exc g
   else if linkRefused g a b then .exc g
@@ -172,7 +172,7 @@ def linkE (a b e : Nat) (g : G) : GOut Unit :=
     let g0 := if e ≥ g.nextEdge then { g with nextEdge := e + 1 } else g
     .ok () (linkWrite a b e g0)
 
-/-- `unlink` (GlobalGraph.cpp:120) -/
+/-- `unlink` (GlobalGraph.cpp:124) -/
 def unlink (a b : Nat) (g : G) : GOut (List Nat) :=
   match unlinkInNode a b g with
   | .exc g' => .exc g'
@@ -185,7 +185,7 @@ def unlink (a b : Nat) (g : G) : GOut (List Nat) :=
       | .exc g' => .exc g'
       | .ok _ g3 => .ok [e] { g3 with pending := g3.pending ++ [.edges [e]] }
 
-/-- the node table written by the exchange of `switchNodes` (GlobalGraph.cpp:187-196) for the
+/-- the node table written by the exchange of `switchNodes` (GlobalGraph.cpp:191-200) for the
 relation father -> son carried by edge e -/
 def switchedNodes (f s e : Nat) (nodes : List (Nat × Row)) : List (Nat × Row) :=
   let n1 := AL.modify f (fun r => { r with out := AL.erase s r.out }) nodes
@@ -193,14 +193,14 @@ def switchedNodes (f s e : Nat) (nodes : List (Nat × Row)) : List (Nat × Row) 
   let n3 := AL.modify s (fun r => { r with out := AL.set f e r.out }) n2
   AL.modify f (fun r => { r with inn := AL.set s e r.inn }) n3
 
-/-- second half of `switchNodes` (GlobalGraph.cpp:177-200), once the forward relation
+/-- second half of `switchNodes` (GlobalGraph.cpp:181-204), once the forward relation
 father -> son (edge e) has been found -/
 def switchFrom (f s e : Nat) (g : G) : GOut Unit :=
   if (g.inE s f).isNone then .exc g
   else if f ≠ s && (g.outE s f).isSome then .exc g
   else .ok () { g with nodes := switchedNodes f s e g.nodes, edges := AL.set e (s, f) g.edges }
 
-/-- `switchNodes` (GlobalGraph.cpp:140) -/
+/-- `switchNodes` (GlobalGraph.cpp:144) -/
 def switchNodes (a b : Nat) (g : G) : GOut Unit :=
   if !g.directed then .exc g
   else if !g.hasNode a || !g.hasNode b then .exc g
@@ -213,7 +213,7 @@ def switchNodes (a b : Nat) (g : G) : GOut Unit :=
       | some e => switchFrom b a e g
       | none => .exc g
 
-/-- `createNodeFromNode` (GlobalGraph.cpp:268) -/
+/-- `createNodeFromNode` (GlobalGraph.cpp:272) -/
 def createNodeFromNode (origin : Nat) (g : G) : GOut Nat :=
   if !g.hasNode origin then .exc g
   else
@@ -224,7 +224,7 @@ def createNodeFromNode (origin : Nat) (g : G) : GOut Nat :=
       | .exc g' => .exc g'
       | .ok _ g2 => .ok n g2
 
-/-- `createNodeOnEdge` (GlobalGraph.cpp:279) -/
+/-- `createNodeOnEdge` (GlobalGraph.cpp:283) -/
 def createNodeOnEdge (e : Nat) (g : G) : GOut Nat :=
   match AL.find e g.edges with
   | none => .exc g
@@ -243,7 +243,7 @@ def createNodeOnEdge (e : Nat) (g : G) : GOut Nat :=
           | .exc g' => .exc g'
           | .ok _ g4 => .ok n g4
 
-/-- `createNodeFromEdge` (GlobalGraph.cpp:299) -/
+/-- `createNodeFromEdge` (GlobalGraph.cpp:303) -/
 def createNodeFromEdge (e : Nat) (g : G) : GOut Nat :=
   if !g.hasEdge e then .exc g
   else
@@ -251,7 +251,7 @@ def createNodeFromEdge (e : Nat) (g : G) : GOut Nat :=
     | .exc g' => .exc g'
     | .ok anchor g1 => createNodeFromNode anchor g1
 
-/-- the loops of `isolate_` (GlobalGraph.cpp:529): `unlink(node, nb)` for a snapshot of neighbours -/
+/-- the loops of `isolate_` (GlobalGraph.cpp:533): `unlink(node, nb)` for a snapshot of neighbours -/
 def isolateOut (n : Nat) : List Nat → G → GOut Unit
   | [], g => .ok () g
   | nb :: rest, g =>
@@ -269,7 +269,7 @@ def isolateIn (n : Nat) : List Nat → G → GOut Unit
 def outKeys (g : G) (n : Nat) : List Nat := match AL.find n g.nodes with | some r => AL.keys r.out | none => []
 def inKeys (g : G) (n : Nat) : List Nat := match AL.find n g.nodes with | some r => AL.keys r.inn | none => []
 
-/-- `deleteNode` (GlobalGraph.cpp:511) -/
+/-- `deleteNode` (GlobalGraph.cpp:515) -/
 def deleteNode (n : Nat) (g : G) : GOut Unit :=
   if !g.hasNode n then .exc g
   else
@@ -285,18 +285,18 @@ def deleteNode (n : Nat) (g : G) : GOut Unit :=
           if !g2.hasNode n then .exc g2
           else .ok () { g2 with nodes := AL.erase n g2.nodes, pending := g2.pending ++ [.nodes [n]] }
 
-/-- `setRoot` (GlobalGraph.cpp:811) -/
+/-- `setRoot` (GlobalGraph.cpp:819) -/
 def setRoot (n : Nat) (g : G) : GOut Unit :=
   if g.hasNode n then .ok () { g with root := n } else .exc g
 
-/-- node table with every row emptied (GlobalGraph.cpp:833-836, 871-874) -/
+/-- node table with every row emptied (GlobalGraph.cpp:841-844, 879-882) -/
 def clearedNodes (g : G) : List (Nat × Row) := g.nodes.map (fun p => (p.1, ({} : Row)))
 
 /-- all `(a, b, e)` with `nodeStructure_[a].first[b] = e`, in iteration order -/
 def outTriples (nodes : List (Nat × Row)) : List (Nat × Nat × Nat) :=
   nodes.flatMap (fun p => p.2.out.map (fun q => (p.1, q.1, q.2)))
 
-/-- `makeDirected` (GlobalGraph.cpp:827): first met, first kept; the kept direction is
+/-- `makeDirected` (GlobalGraph.cpp:835): first met, first kept; the kept direction is
 written to the edge table -/
 def makeDirectedStep (acc : G × List (Nat × Nat)) (t : Nat × Nat × Nat) : G × List (Nat × Nat) :=
   let (a, b, e) := t
@@ -311,7 +311,7 @@ def makeDirected (g : G) : G :=
     let r := (outTriples g.nodes).foldl makeDirectedStep (g0, [])
     { r.1 with directed := true }
 
-/-- `containsReciprocalRelations` (GlobalGraph.cpp:894); `none` = throws (undirected) -/
+/-- `containsReciprocalRelations` (GlobalGraph.cpp:902); `none` = throws (undirected) -/
 def recipLoop : List (Nat × Nat × Nat) → List (Nat × Nat) → Bool
   | [], _ => false
   | (a, b, _) :: rest, seen =>
@@ -321,7 +321,7 @@ def recipLoop : List (Nat × Nat × Nat) → List (Nat × Nat) → Bool
 def containsReciprocal (g : G) : Option Bool :=
   if !g.directed then none else some (recipLoop (outTriples g.nodes) [])
 
-/-- `makeUndirected` (GlobalGraph.cpp:863) -/
+/-- `makeUndirected` (GlobalGraph.cpp:871) -/
 def makeUndirected (g : G) : GOut Unit :=
   if !g.directed then .ok () g
   else if recipLoop (outTriples g.nodes) [] then .exc g
@@ -339,35 +339,35 @@ row recomputed from the edge triples in the specification. -/
 end G
 
 namespace RowQ
-/-- `getNeighbors_` (GlobalGraph.cpp:330) / `getEdges_` (:345) -/
+/-- `getNeighbors_` (GlobalGraph.cpp:334) / `getEdges_` (:349) -/
 def outNeighbors (r : Option Row) : Option (List Nat) := r.map (fun r => AL.keys r.out)
 def inNeighbors (r : Option Row) : Option (List Nat) := r.map (fun r => AL.keys r.inn)
 def outEdges (r : Option Row) : Option (List Nat) := r.map (fun r => AL.vals r.out)
 def inEdges (r : Option Row) : Option (List Nat) := r.map (fun r => AL.vals r.inn)
-/-- `getNeighbors` (GlobalGraph.cpp:480): undirected = outgoing only, directed = incoming ++ outgoing -/
+/-- `getNeighbors` (GlobalGraph.cpp:484): undirected = outgoing only, directed = incoming ++ outgoing -/
 def neighbors (d : Bool) (r : Option Row) : Option (List Nat) :=
   r.map (fun r => if d then AL.keys r.inn ++ AL.keys r.out else AL.keys r.out)
-/-- `getEdges` (GlobalGraph.cpp:953) -/
+/-- `getEdges` (GlobalGraph.cpp:961) -/
 def edgesOf (d : Bool) (r : Option Row) : Option (List Nat) :=
   r.map (fun r => if d then AL.vals r.inn ++ AL.vals r.out else AL.vals r.out)
-/-- `getDegree` (GlobalGraph.cpp:427) = `getNumberOfNeighbors` (:452) -/
+/-- `getDegree` (GlobalGraph.cpp:431) = `getNumberOfNeighbors` (:456) -/
 def degree (d : Bool) (r : Option Row) : Option Nat :=
   r.map (fun r => if d then r.out.length + r.inn.length else r.out.length)
 def nbOut (r : Option Row) : Option Nat := r.map (fun r => r.out.length)
 def nbIn (r : Option Row) : Option Nat := r.map (fun r => r.inn.length)
-/-- the test of `isLeaf` on one row (GlobalGraph.cpp:443-449) -/
+/-- the test of `isLeaf` on one row (GlobalGraph.cpp:447-453) -/
 def rowIsLeaf (directed : Bool) (r : Row) : Bool :=
   (!directed && decide (r.out.length ≤ 1))
   || (directed && (decide (r.out.length + r.inn.length ≤ 1)
       || (decide (r.out.length = 1) && decide (r.inn.length = 1)
           && (r.out.head?.map (·.1)) == (r.inn.head?.map (·.1)))))
-/-- `isLeaf` (GlobalGraph.cpp:437) -/
+/-- `isLeaf` (GlobalGraph.cpp:441) -/
 def isLeaf (d : Bool) (r : Option Row) : Option Bool := r.map (rowIsLeaf d)
 /-- iterators (GlobalGraph.h:716-): the constructor dereferences `find(node)` unchecked -/
 def iter (f : Row → List Nat) (r : Option Row) : QRes (List Nat) :=
   match r with | some r => .ok (f r) | none => .ub
 
-/-- `fillListOfLeaves_` (GlobalGraph.cpp:616) over a neighbour function; `none` = it threw -/
+/-- `fillListOfLeaves_` (GlobalGraph.cpp:620) over a neighbour function; `none` = it threw -/
 def fillLeaves (nbr : Nat → Option (List Nat)) : Nat → Nat → Nat → List Nat → Option (List Nat)
   | fuel, start, origin, found =>
     match nbr start with
@@ -395,11 +395,11 @@ def edgesOf (g : G) (n : Nat) := RowQ.edgesOf g.directed (g.rowOf n)
 def degree (g : G) (n : Nat) := RowQ.degree g.directed (g.rowOf n)
 def isLeaf (g : G) (n : Nat) := RowQ.isLeaf g.directed (g.rowOf n)
 
-/-- `getNodes` (GlobalGraph.cpp:494) -/
+/-- `getNodes` (GlobalGraph.cpp:498) -/
 def getNodes (g : G) (e : Nat) : Option (Nat × Nat) := AL.find e g.edges
-/-- `getEdge` (GlobalGraph.cpp:942) -/
+/-- `getEdge` (GlobalGraph.cpp:950) -/
 def getEdge (g : G) (a b : Nat) : Option Nat := g.outE a b
-/-- `getAnyEdge` (GlobalGraph.cpp:555) -/
+/-- `getAnyEdge` (GlobalGraph.cpp:559) -/
 def getAnyEdge (g : G) (a b : Nat) : Option Nat :=
   match g.getEdge a b with
   | some e => some e
@@ -407,11 +407,11 @@ def getAnyEdge (g : G) (a b : Nat) : Option Nat :=
 
 def allNodes (g : G) : List Nat := AL.keys g.nodes
 def allEdges (g : G) : List Nat := AL.keys g.edges
-/-- `getAllLeaves` (GlobalGraph.cpp:569) -/
+/-- `getAllLeaves` (GlobalGraph.cpp:573) -/
 def allLeaves (g : G) : List Nat := (g.nodes.filter (fun p => RowQ.rowIsLeaf g.directed p.2)).map (·.1)
-/-- `getAllInnerNodes` (GlobalGraph.cpp:604): at least one outgoing neighbour -/
+/-- `getAllInnerNodes` (GlobalGraph.cpp:608): at least one outgoing neighbour -/
 def allInnerNodes (g : G) : List Nat := (g.nodes.filter (fun p => decide (p.2.out.length ≥ 1))).map (·.1)
-/-- `getLeavesFromNode` (GlobalGraph.cpp:633) -/
+/-- `getLeavesFromNode` (GlobalGraph.cpp:637) -/
 def leavesFromNode (g : G) (n maxDepth : Nat) : Option (List Nat) := RowQ.fillLeaves g.neighbors maxDepth n n []
 
 end G
